@@ -78,7 +78,8 @@ KIND_PATTERNS = [
     (re.compile(r"division by zero"), "divzero"),
     (re.compile(r"assertion failed"), "assert"),
     (re.compile(r"invariant not satisfied"), "invariant"),
-    (re.compile(r"decreases"), "decreases"),
+    (re.compile(r"must have a decreases clause"), "other"),
+    (re.compile(r"could not prove termination|decreases"), "decreases"),
     (re.compile(r"unreachable|panic"), "panic"),
     (re.compile(r"recommendation not met|recommends"), "recommends"),
     (re.compile(r"rlimit|Resource limit|timed? ?out"), "rlimit"),
